@@ -182,6 +182,17 @@ CHECKS = {
         design_ref="DESIGN.md section 5 C17",
         note="One seeded file tree per run; `info` is not constrained when the key situation is wrong (it is not in the "
              "statement's command list); stderr wording not compared."),
+    "C18": dict(
+        technique="TLA+ KeyFile model (DER/PEM shape grammar x structured mutations with the required outcome) enumerated by TLC; "
+                  "each shape concretised for many seeds and parsed by the real curve25519-parser",
+        text="TLC enumerates every key kind (X25519/Ed25519, private/public), armour (DER, PEM with LF/CRLF/one line/76 "
+             "columns) and up to 1-2 structured mutations (tags, OIDs, lengths, truncation, trailing bytes, labels, base64) "
+             "together with what the specification requires (accept with the embedded key / reject / either); each is "
+             "built for 64-2048 seeds and parsed under catch_unwind; generate_keypair round trips, PEM=DER, concatenated "
+             "PEM keys in order, Ed25519->X25519 pairs matching (checked with curve25519-dalek directly), random inputs.",
+        design_ref="DESIGN.md section 5 C18",
+        note="Lenient-but-harmless encodings are allowed either way provided the returned key is the embedded one; "
+             "random bytes are exploration outside the model."),
     "C19": dict(
         technique="TLA+ KeyDerive term algebra (TLC: composition law, determinism) enumerating every (seed, path list, split); "
                   "each term computed by the real mlar binary and by an independent implementation of the documented algorithm",
